@@ -28,6 +28,9 @@ type Ptr struct {
 	Root string
 	Path string
 	Nil  bdd.Node
+	// Idx, when set, makes this the address of element Idx of the symbolic
+	// slice named Root: loads and stores through it are recorded as events.
+	Idx dom.BV
 }
 
 // Iface is an interface value: nil under Nil, otherwise either the symbolic
@@ -48,6 +51,14 @@ type Slice struct {
 	Path string
 	Lo   int
 	Len  dom.BV
+	// LoV is a symbolic lower bound of a window onto the symbolic slice Sym.
+	LoV dom.BV
+}
+
+// RangeIter is the iterator of a range over a map.
+type RangeIter struct {
+	Map *Map
+	ID  int
 }
 
 type Map struct {
@@ -145,7 +156,8 @@ func SameValue(a, b Value) bool {
 		return types.Identical(x.ConcType, y.ConcType) && SameValue(x.Conc, y.Conc)
 	case *Slice:
 		y, ok := b.(*Slice)
-		return ok && x.Nil == y.Nil && x.Sym == y.Sym && x.Root == y.Root && x.Path == y.Path && x.Lo == y.Lo && x.Len.Equal(y.Len)
+		return ok && x.Nil == y.Nil && x.Sym == y.Sym && x.Root == y.Root && x.Path == y.Path && x.Lo == y.Lo && x.Len.Equal(y.Len) &&
+			(x.LoV == nil) == (y.LoV == nil) && (x.LoV == nil || x.LoV.Equal(y.LoV))
 	case *Map:
 		y, ok := b.(*Map)
 		return ok && x.Nil == y.Nil && x.Sym == y.Sym
@@ -243,6 +255,10 @@ func MuxValue(c *dom.Ctx, p bdd.Node, a, b Value) Value {
 	case *Map:
 		if y, ok := b.(*Map); ok && x.Sym == y.Sym {
 			return &Map{Sym: x.Sym, Nil: c.M.Ite(p, x.Nil, y.Nil)}
+		}
+	case *Slice:
+		if y, ok := b.(*Slice); ok && x.Sym == y.Sym && x.Root == y.Root && x.Path == y.Path && x.Lo == y.Lo && x.LoV == nil && y.LoV == nil && x.Nil == y.Nil && len(x.Len) == len(y.Len) {
+			return &Slice{Sym: x.Sym, Root: x.Root, Path: x.Path, Lo: x.Lo, Nil: x.Nil, Len: c.Mux(p, x.Len, y.Len)}
 		}
 	}
 	return &MuxV{P: p, A: a, B: b}
